@@ -25,7 +25,7 @@ PROP = "C03"
 
 EVIDENCE = {
     "rule": "one evaluation = one simulated call history of one constitutive object (material-point machine: 6..24 trial/commit/reject operations on a batch of material points; or one FE job with the monitoring wrapper between body and material); non-trivial = at least one derivative probe at a state with non-zero committed state variables, or a reused dirty out= buffer, or a rejected trial followed by a commit; distinct = distinct (model, operation sequence shape, probe outcome classes)",
-    "probes_expected": ["fd-hessian-probe", "fd-gradient-probe", "probe-at-stored-state", "reject-then-commit", "out-buffer-dirty", "mixed-block-probe", "kink-discarded", "job-umat-call-monitored", "plastic-loading-point", "unloading-point"],
+    "probes_expected": ["fd-hessian-probe", "fd-gradient-probe", "probe-at-stored-state", "reject-then-commit", "out-buffer-dirty", "mixed-block-probe", "kink-discarded", "job-umat-call-monitored", "plastic-loading-point", "unloading-point", "hessian-first-at-new-state"],
     "clauses_sampled_only": ["for stateless hyperelastic models evaluated without out= the derivative check is sampling of deformation gradients (pure function); only the call protocol (idempotence, inputs untouched, buffer reuse) is history"],
     "components": {
         "real": ["felupe.constitution (hand-coded, tensortrax, composite, mixed wrappers, small-strain framework)", "tensortrax", "numpy"],
@@ -403,6 +403,12 @@ def run_point(doc, log):
     rejected_then_commit = False
     had_reject = False
     eye = np.eye(nd).reshape(nd, nd, 1, 1)
+    # like a solid body, the caller re-uses its kinematics buffers: the same array objects are
+    # handed to the material in every call, with new values written in place
+    Fbuf = np.zeros((nd, nd, q, c))
+    pbuf = np.zeros((q, c))
+    Jbuf = np.ones((q, c))
+    cold_spec = dict(spec)
     for k, op in enumerate(doc["ops"]):
         t = op["t"] * op.get("excursion", 1.0)
         F = eye + amp * t * H
@@ -410,14 +416,26 @@ def run_point(doc, log):
         if J.min() < 0.3:
             log.count("op-skipped-domain")
             continue
-        if model in ("LinearElastic", "LinearElasticPlaneStress", "LinearElasticPlaneStrain", "LinearElasticOrthotropic", "LinearElasticTensorNotation"):
-            x = [F, sv]
-        elif mixed:
-            pp = 0.1 * Hrng.normal(size=(q, c)) * t
-            JJ = J * (1 + 0.02 * Hrng.normal(size=(q, c)) * t)
-            x = [F, pp, JJ, sv]
+        Fbuf[...] = F
+        F = Fbuf
+        if mixed:
+            pbuf[...] = 0.1 * Hrng.normal(size=(q, c)) * t
+            Jbuf[...] = J * (1 + 0.02 * Hrng.normal(size=(q, c)) * t)
+            x = [F, pbuf, Jbuf, sv]
         else:
             x = [F, sv]
+        if k % 3 == 1 and not model.startswith("JAX:"):
+            # the elasticity requested first at a new state (no stress evaluation in between)
+            h_first = [None if a is None else np.array(a, copy=True) for a in umat.hessian(x)]
+            cold = build(cold_spec)
+            h_cold = cold.hessian([np.array(a, copy=True) for a in x])
+            for kb, (a, b_) in enumerate(zip(h_first, h_cold)):
+                if a is None or b_ is None:
+                    continue
+                ok, rel = close_exact_twin(a, np.asarray(b_), rtol=1e-10, atol=1e-12 * (1 + float(np.abs(np.asarray(b_)).max())))
+                if not ok:
+                    raise Violation(PROP, "call-history", f"{model}.hessian requested first at a new state (inputs updated in place, no gradient call in between) differs from a fresh object's result (block {kb}, rel {rel:.2e})", site=f"{model}.hessian-first")
+            log.count("hessian-first-at-new-state")
         svd = adigest(sv)
         dirty = bool(doc.get("out_dirty")) and k % 2 == 1
         g, h = pr.evaluate(x, dirty=dirty)
